@@ -184,6 +184,19 @@ Theorem C17_forwarding_all : forallb fwd_ok (Gen_export.table ++ Gen_export.tabl
 Proof. exact fwd_all. Qed.
 Print Assumptions C17_forwarding_all.
 
+(* USINGZ: the Z callback registered through SetZCallback64 / SetZCallbackD (two header-level globals) is handed to
+   SetZCallback of the clipper each boolean export executes, in front of Execute; see Export.zcb_failures *)
+Theorem C17_zcallback_forwarded :
+  forallb (zcb_ok true) Gen_export.table_z = true /\ forallb (zcb_ok false) Gen_export.table = true.
+Proof. exact zcb_all. Qed.
+Print Assumptions C17_zcallback_forwarded.
+
+Theorem C17_zcallback_constrained :
+  map f_name (filter (fun f => match zcb_family (f_name f) with Some _ => true | None => false end) Gen_export.table_z) =
+    ["BooleanOp64"; "BooleanOpD"; "BooleanOp_PolyTree64"; "BooleanOp_PolyTreeD"]%string.
+Proof. exact zcb_constrained. Qed.
+Print Assumptions C17_zcallback_constrained.
+
 Theorem C17_table_complete :
   map f_name table = map f_name table_z /\
   map f_name table =
